@@ -234,3 +234,18 @@ case("C16", "edge-uses-in-only", "VIOLATION", [(IOF, "end = mid + max(out_width,
 case("C16", "continue-after-signal-append", "VIOLATION", [(IOF, "\t\t\tsignals_.append(signal)\n", "\t\t\tsignals_.append(signal)\n\t\t\tif signal[target_idx].sum() == 0:\n\t\t\t\tcontinue\n")], "ALIGN")
 case("C16", "window-equiv-spelling", "HOLDS", [(IOF, "end = mid + in_width + max_jitter + (in_window % 2)", "end = start + in_window + 2 * max_jitter")])
 case("C16", "meme-commit-ge", "HOLDS", [(IOF, "\t\t\t\tif i == width:\n\t\t\t\t\tmotifs[motif]", "\t\t\t\tif i >= width:\n\t\t\t\t\tmotifs[motif]")])
+
+# ------------------------------------------------------------------ C17
+MT = "tangermeme/match.py"
+prefix("C17", "D12-prefix-spill-bin0", MT, "9bb024e", "R-COVER", "match.extract_matching_loci")
+prefix("C17", "D13-prefix-signal-slice", MT, "81de39b", "R-SLICE0", "match._extract_and_filter_chrom")
+case("C17", "spill-upper-guard-strict", "VIOLATION", [(MT, "\t\t\tif idx < n:\n", "\t\t\tif idx < n - 1:\n")], "R-COVER")
+case("C17", "spill-upper-guard-le", "VIOLATION", [(MT, "\t\t\tif idx < n:\n", "\t\t\tif idx <= n:\n")], "R-COVER")
+case("C17", "spill-offset-from-1", "VIOLATION", [(MT, "for offset in range(n):", "for offset in range(1, n):")], "R-COVER")
+case("C17", "signal-window-equiv", "HOLDS", [(MT, "values = values[:, left_flank:in_window-right_flank]", "values = values[:, left_flank:left_flank + out_window]")])
+case("C17", "signal-window-neg-flank", "VIOLATION", [(MT, "values = values[:, left_flank:in_window-right_flank]", "values = values[:, left_flank:-right_flank]")], "R-SLICE0")
+case("C17", "mask-test-dropped", "VIOLATION", [(MT, "\t\t\t\tif value not in mask[chrom]:\n\t\t\t\t\tgc_percs[key].append((chrom, value))\n\t\t\t\t\tbg_bin_count[key] += 1", "\t\t\t\tgc_percs[key].append((chrom, value))\n\t\t\t\tbg_bin_count[key] += 1")], "MASK")
+case("C17", "mask-end-exclusive", "VIOLATION", [(MT, "end = locus.end // in_window + 1", "end = locus.end // in_window")], "MASK")
+case("C17", "global-rng", "VIOLATION", [(MT, "\t\trandom_state.shuffle(value)", "\t\tnumpy.random.shuffle(value)")], "R-RNG")
+case("C17", "bg-not-reduced", "VIOLATION", [(MT, "\t\t\tif idx >= 0:\n\t\t\t\tcount = min(bg_bin_count[idx], loci_bin_count[i])\n\t\t\t\tbg_bin_count[idx] -= count\n", "\t\t\tif idx >= 0:\n\t\t\t\tcount = min(bg_bin_count[idx], loci_bin_count[i])\n")], "COUNTS")
+case("C17", "tile-end-off", "VIOLATION", [(MT, "matched_loci['end'].append((start+1)*in_window)", "matched_loci['end'].append((start+1)*in_window - 1)")], "TILES")
